@@ -378,6 +378,76 @@ Fixpoint norm_s (s : stmt) : stmt :=
   end.
 Definition norm_l (l : list stmt) : list stmt := map norm_s l.
 
+(** ** fusion with collapse(2): groups of perfect 2-nests with equal unit-step ranges at both levels.
+    The counters of a later nest are renamed to those of the first nest by ONE substitution map built over both
+    levels (simultaneous renaming: (j,i) -> (i,j) exchanges the two names). *)
+Definition fusion2_pragma (p : string) : bool := prefix "$loki loop-fusion collapse(2)" p.
+
+Definition rename2 (w1 v1 w2 v2 : string) : string -> option expr :=
+  fun x => if String.eqb x w1 then (if String.eqb w1 v1 then None else Some (EVar v1))
+           else if String.eqb x w2 then (if String.eqb w2 v2 then None else Some (EVar v2))
+           else None.
+
+Fixpoint fuse2_collect (p v1 v2 : string) (lo1 hi1 lo2 hi2 : expr) (l : list stmt)
+  : option (list stmt * list stmt) :=
+  match l with
+  | [] => Some ([], [])
+  | s :: r =>
+      let skip_it := match fuse2_collect p v1 v2 lo1 hi1 lo2 hi2 r with
+                     | Some (bs, rest) => Some (bs, s :: rest)
+                     | None => None
+                     end in
+      match s, r with
+      | SSkip q, SDo w1 lo hi st [SDo w2 lo' hi' st' b] :: r' =>
+          if String.eqb q p then
+            if same_range lo1 hi1 lo hi && unit_step st && same_range lo2 hi2 lo' hi' && unit_step st' then
+              match fuse2_collect p v1 v2 lo1 hi1 lo2 hi2 r' with
+              | Some (bs, rest) => Some (msubst_l (rename2 w1 v1 w2 v2) b ++ bs, rest)
+              | None => None
+              end
+            else None
+          else skip_it
+      | _, _ => skip_it
+      end
+  end.
+
+Fixpoint fuse2 (fuel : nat) (l : list stmt) : option (list stmt) :=
+  match fuel with
+  | O => Some l
+  | S f =>
+    match l with
+    | [] => Some []
+    | s :: r =>
+        let keep := match fuse2 f r with Some r2 => Some (s :: r2) | None => None end in
+        match s, r with
+        | SSkip p, SDo v1 lo1 hi1 st1 [SDo v2 lo2 hi2 st2 b] :: r' =>
+            if fusion2_pragma p then
+              if unit_step st1 && unit_step st2 then
+                match fuse2_collect p v1 v2 lo1 hi1 lo2 hi2 r' with
+                | Some (bs, rest) =>
+                    match fuse2 f rest with
+                    | Some rest' => Some (SDo v1 lo1 hi1 None [SDo v2 lo2 hi2 None (b ++ bs)] :: rest')
+                    | None => None
+                    end
+                | None => None
+                end
+              else None
+            else keep
+        | _, _ => keep
+        end
+    end
+  end.
+
+Definition do_fusion2 (l : list stmt) : option (list stmt) := fuse2 (S (List.length l)) l.
+
+Definition chk_fusion2 (prog impl : list stmt) : bool :=
+  match do_fusion2 prog with
+  | Some out => stmts_eqb (norm_l (strip_skips out)) (norm_l impl)
+  | None => false
+  end.
+
+
+
 (** segments of a loop body between top-level fission markers *)
 Fixpoint segments (body cur : list stmt) : list (list stmt) :=
   match body with
